@@ -26,6 +26,7 @@ import (
 	"encoding/json"
 	"fmt"
 	"os"
+	"path/filepath"
 	"slices"
 	"sort"
 	"strconv"
@@ -49,9 +50,11 @@ func main() { core.Main("C02", "exploration", run, replay, nil) }
 
 // pcase is one input of a prepared grammar.
 type pcase struct {
-	text string
-	tree *extsem.Node // nil: not a sentence
-	cfg  *cfgNode     // plain-CFG fragment: the tree of the second enumerator
+	entry string // input nonterminal ("" = the only input)
+	root  int
+	text  string
+	tree  *extsem.Node // nil: not a sentence
+	cfg   *cfgNode     // plain-CFG fragment: the tree of the second enumerator
 }
 
 // prepared is one grammar that passed the reference filters.
@@ -73,6 +76,8 @@ type replayCase struct {
 	Kind     string          `json:"kind"`
 	TM       string          `json:"tm"`
 	Text     string          `json:"text"`
+	Entry    string          `json:"entry,omitempty"` // the %input parsed ("" = first)
+	Check    string          `json:"check,omitempty"` // "flat-post-order": compare the order with the strict post-order
 	FixWS    bool            `json:"fixWhitespace"`
 	Grammar  *extsem.Grammar `json:"grammar,omitempty"`
 	CFG      *gramenum.Gram  `json:"cfg,omitempty"`
@@ -106,25 +111,33 @@ func prepareExt(g *extsem.Grammar) (*prepared, string) {
 	T := len(g.Terminals())
 	p := &prepared{kind: "ext", g: g}
 	reject := ""
-	gramenum.AllStrings(T, L, func(w string) {
-		if reject != "" {
-			return
+	for _, in := range g.Inputs() {
+		entry := ""
+		if len(g.Inputs()) > 1 || in.NT != 0 {
+			entry = g.NTs[in.NT].Name
 		}
-		trees, giveUp := g.Trees(w)
-		switch {
-		case giveUp:
-			reject = "cyclic-or-too-many-derivations"
-		case len(trees) > 1:
-			reject = "ambiguous"
-		case len(trees) == 1:
-			p.sentences++
-			for _, text := range spacings(w) {
-				p.cases = append(p.cases, pcase{text: text, tree: trees[0]})
+		gramenum.AllStrings(T, L, func(w string) {
+			if reject != "" {
+				return
 			}
-		case len(w) <= LReject:
-			p.cases = append(p.cases, pcase{text: w})
-		}
-	})
+			trees, giveUp := g.TreesFrom(in.NT, w)
+			switch {
+			case giveUp:
+				reject = "cyclic-or-too-many-derivations"
+			case len(trees) > 1:
+				reject = "ambiguous"
+			case len(trees) == 1:
+				p.sentences++
+				for _, text := range spacings(w) {
+					p.cases = append(p.cases, pcase{entry: entry, root: in.NT, text: text, tree: trees[0]})
+				}
+			case len(w) <= LReject && !in.NoEoi:
+				// (a no-eoi input accepts a sentence followed by anything: only exact sentences
+				// are fed through it)
+				p.cases = append(p.cases, pcase{entry: entry, root: in.NT, text: w})
+			}
+		})
+	}
 	if reject != "" {
 		return nil, reject
 	}
@@ -219,6 +232,33 @@ type runner struct {
 	batchLimit int // parsers per RunBatch call; adapted to the measured build cost so that a
 	// batch in flight never overshoots the soft budget by much (coverage only, never an oracle)
 	sampled map[*prepared]bool
+	// orderIsKnownFinding: known_findings.json lists orderKey for C02. The statement read literally
+	// ("exactly the post-order list of the annotations") is contradicted by reporting nested arrows
+	// at reduce time; that is inherent to the design (generated AST builders re-insert by offset),
+	// so it is recorded as a known finding rather than repaired. All other comparisons use the
+	// reduce order. Until the entry exists the difference is only counted
+	// (cases_where_reduce_order_differs_from_flat_postorder), so that the check's exit code on the
+	// unchanged tree does not depend on the order in which check and entry are committed.
+	orderIsKnownFinding bool
+}
+
+const orderKey = "order:nested-arrow-reported-at-reduce-not-in-post-order"
+
+func orderFindingListed() bool {
+	data, err := os.ReadFile(filepath.Join(core.Root(), "known_findings.json"))
+	if err != nil {
+		return false
+	}
+	var all []core.Finding
+	if json.Unmarshal(data, &all) != nil {
+		return false
+	}
+	for _, f := range all {
+		if f.Property == "C02" && f.Status == "known" && (f.Key == orderKey || strings.HasPrefix(orderKey, f.Key+":")) {
+			return true
+		}
+	}
+	return false
 }
 
 type job struct {
@@ -258,7 +298,7 @@ func (r *runner) flush() {
 	for _, j := range jobs {
 		cases := make([]genharness.Case, len(j.p.cases))
 		for k, cs := range j.p.cases {
-			cases[k] = genharness.Case{Text: cs.text, Mode: "parse"}
+			cases[k] = genharness.Case{Entry: cs.entry, Text: cs.text, Mode: "parse"}
 		}
 		specs = append(specs, genharness.Spec{Name: j.name, TM: j.tm, Cases: cases})
 	}
@@ -316,8 +356,11 @@ func (r *runner) check(j job, out genharness.Outcome) {
 	for k, cs := range p.cases {
 		res := out.Results[k]
 		rc := base
-		rc.Text = cs.text
+		rc.Text, rc.Entry = cs.text, cs.entry
 		c.Eval(1)
+		if cs.entry != "" {
+			c.Add("cases_through_a_named_input", 1)
+		}
 		if res.Panic != "" || res.Hang || res.Aborted {
 			c.Violate("parser:crash-or-hang:"+mode, fmt.Sprintf("panic=%q hang=%v aborted=%v on %q", res.Panic, res.Hang, res.Aborted, cs.text), rc)
 			continue
@@ -373,8 +416,15 @@ func (r *runner) check(j job, out genharness.Outcome) {
 			}
 			c.Add("events_compared", int64(len(exp)))
 			if strings.Join(extsem.Types(exp), " ") != strings.Join(extsem.FlatPostOrder(cs.tree), " ") {
-				// informational: reduce order differs from the order by nesting/position alone
+				// reduce order differs from the order by nesting/position alone
 				c.Add("cases_where_reduce_order_differs_from_flat_postorder", 1)
+				if r.orderIsKnownFinding {
+					oc := rc
+					oc.Check = "flat-post-order"
+					oc.Expected = extsem.FlatPostOrder(cs.tree)
+					oc.Got = gotStrings(got)
+					c.Violate(orderKey, fmt.Sprintf("the listener order is not the post-order of the annotations: input %q: post-order of the derivation's annotations %v, listener got %s (arrows nested in a rule are reported when the rule is reduced, after the events of all its nonterminals, also of those to their right)\n%s", cs.text, oc.Expected, strings.Join(oc.Got, " "), ruleText(p)), oc)
+				}
 			}
 			if !r.sampled[p] && len(exp) >= 3 && p.kind == "ext" && p.nested > 0 && strings.Count(cs.text, " ") >= 2 {
 				r.sampled[p] = true
@@ -511,7 +561,7 @@ func run(c *core.Ctx) {
 		return
 	}
 
-	r := &runner{c: c, grammars: map[*prepared]bool{}, nontrivial: map[*prepared]bool{}, sampled: map[*prepared]bool{}, batchLimit: 24}
+	r := &runner{c: c, grammars: map[*prepared]bool{}, nontrivial: map[*prepared]bool{}, sampled: map[*prepared]bool{}, batchLimit: 24, orderIsKnownFinding: orderFindingListed()}
 	cfgTarget, extTarget, W := 50, 260, 6
 	if !c.Quick() {
 		cfgTarget, extTarget = 300, 2700
@@ -644,7 +694,7 @@ func runExt(c *core.Ctx, r *runner, target, W int, feedCFG func() bool) {
 	}
 	// classes where range arithmetic is most delicate go first, so that a run that is cut short by
 	// the budget on a busy machine has seen them
-	first := []string{"fixWhitespace-matters:rule-level", famSameNames, famSameClass, "family:same-element-extracted-twice", "inner-part-ends-in-empty-symbol", "trailing-empty-symbol:annotated", "leading-empty-symbol", "order:nested-arrow-left-of-annotated-Y", "arrow:nested/d2", "arrow:list+", "arrow:empty-nested", "arrow:nested/nullable"}
+	first := []string{"fixWhitespace-matters:rule-level", famSameNames, famMarkers, famInputs, famSameClass, "family:same-element-extracted-twice", "inner-part-ends-in-empty-symbol", "trailing-empty-symbol:annotated", "leading-empty-symbol", "order:nested-arrow-left-of-annotated-Y", "arrow:nested/d2", "arrow:list+", "arrow:empty-nested", "arrow:nested/nullable"}
 	var ordered []string
 	for _, f := range first {
 		if _, ok := byClass[f]; ok {
@@ -657,7 +707,7 @@ func runExt(c *core.Ctx, r *runner, target, W int, feedCFG func() bool) {
 		}
 	}
 	// the explicit family is visited three times per cycle (its members are all distinct lists)
-	for _, fam := range []string{famTwice, famSameNames} {
+	for _, fam := range []string{famTwice, famSameNames, famMarkers, famInputs} {
 		if _, ok := byClass[fam]; ok {
 			n := len(ordered)
 			ordered = slices.Insert(ordered, 2*n/3, fam)
@@ -813,7 +863,13 @@ func replay(c *core.Ctx, raw json.RawMessage) error {
 	} else {
 		g = rc.Grammar
 	}
-	trees, giveUp := g.Trees(word)
+	root := 0
+	for i, nt := range g.NTs {
+		if rc.Entry != "" && nt.Name == rc.Entry {
+			root = i
+		}
+	}
+	trees, giveUp := g.TreesFrom(root, word)
 	if giveUp || len(trees) > 1 {
 		return fmt.Errorf("recorded grammar is not in scope (ambiguous)")
 	}
@@ -825,7 +881,7 @@ func replay(c *core.Ctx, raw json.RawMessage) error {
 			name = rest[:j]
 		}
 	}
-	outs, err := genharness.RunBatch([]genharness.Spec{{Name: name, TM: rc.TM, Cases: []genharness.Case{{Text: rc.Text, Mode: "parse"}}}}, genharness.BatchOpts{})
+	outs, err := genharness.RunBatch([]genharness.Spec{{Name: name, TM: rc.TM, Cases: []genharness.Case{{Entry: rc.Entry, Text: rc.Text, Mode: "parse"}}}}, genharness.BatchOpts{})
 	if err != nil {
 		return err
 	}
@@ -847,6 +903,16 @@ func replay(c *core.Ctx, raw json.RawMessage) error {
 		return fmt.Errorf("sentence %q rejected at %d", rc.Text, res.ErrOff)
 	}
 	exp := extsem.Events(trees[0], extsem.Tokenize(rc.Text), rc.FixWS)
+	if rc.Check == "flat-post-order" {
+		var got []string
+		for _, e := range res.Events {
+			got = append(got, e.Type)
+		}
+		if flat := extsem.FlatPostOrder(trees[0]); strings.Join(flat, " ") != strings.Join(got, " ") {
+			return fmt.Errorf("input %q: post-order of the annotations %v, listener order %v", rc.Text, flat, got)
+		}
+		return nil
+	}
 	if !sameEvents(exp, res.Events) {
 		return fmt.Errorf("input %q fixWhitespace=%v: expected %s, listener got %s", rc.Text, rc.FixWS, eventsText(exp), strings.Join(gotStrings(res.Events), " "))
 	}
